@@ -14,6 +14,7 @@ pub struct TmplCfg {
     pub allow_for: bool,
     pub allow_if: bool,
     pub vary_syntax: bool,
+    pub simple_exprs: bool, // only the fragment evaluated by the render specification
 }
 
 impl Default for TmplCfg {
@@ -29,6 +30,7 @@ impl Default for TmplCfg {
             allow_for: true,
             allow_if: true,
             vary_syntax: true,
+            simple_exprs: false,
         }
     }
 }
@@ -69,7 +71,46 @@ impl<'a> TmplGen<'a> {
         v
     }
 
+    fn simple_expr(&mut self, depth: usize) -> String {
+        let idents = self.idents();
+        let id = self.rng.pick(&idents).clone();
+        if depth == 0 {
+            return match self.rng.below(10) {
+                0 => "'s'".into(),
+                1 => "''".into(),
+                2 => format!("{}", self.rng.below(4)),
+                3 => (*self.rng.pick(&["true", "false", "null", "undefined"])).to_string(),
+                4 => format!("{}.a", id),
+                5 => format!("{}.b.x", id),
+                6 => format!("{}[0]", id),
+                7 => format!("{}['x']", id),
+                _ => id,
+            };
+        }
+        let a = self.simple_expr(depth - 1);
+        let b = self.simple_expr(depth - 1);
+        match self.rng.below(14) {
+            0 => format!("{} ? {} : {}", a, b, self.simple_expr(depth - 1)),
+            1 => format!("!{}", paren_unless_simple(&a)),
+            2 => format!("{} && {}", paren_unless_simple(&a), paren_unless_simple(&b)),
+            3 => format!("{} || {}", paren_unless_simple(&a), paren_unless_simple(&b)),
+            4 => format!("{} ?? {}", paren_unless_simple(&a), paren_unless_simple(&b)),
+            5 => format!("{} === {}", paren_unless_simple(&a), paren_unless_simple(&b)),
+            6 => format!("{} !== {}", paren_unless_simple(&a), paren_unless_simple(&b)),
+            7 => format!("'p' + {}", paren_unless_simple(&a)),
+            8 => format!("{} + 1", paren_unless_simple(&a)),
+            9 => format!("[{}, {}]", a, b),
+            10 => format!("{{x: {}, y: {}}}", a, b),
+            11 => format!("{}.length", paren_unless_simple(&a)),
+            _ => a,
+        }
+    }
+
     pub fn expr(&mut self) -> String {
+        if self.cfg.simple_exprs {
+            let d = self.rng.below(self.cfg.expr_depth + 1);
+            return self.simple_expr(d);
+        }
         let idents = self.idents();
         let depth = self.rng.below(self.cfg.expr_depth + 1);
         let e = {
@@ -513,4 +554,12 @@ pub fn dash_to_camel(s: &str) -> String {
         }
     }
     o
+}
+
+fn paren_unless_simple(s: &str) -> String {
+    if s.chars().all(|c| c.is_alphanumeric() || c == '.' || c == '_' || c == '[' || c == ']' || c == '\'') {
+        s.to_string()
+    } else {
+        format!("({})", s)
+    }
 }
